@@ -7,6 +7,7 @@ import (
 	"go/token"
 	"go/types"
 	"io"
+	"path/filepath"
 	"reflect"
 	"slices"
 	"strings"
@@ -598,7 +599,11 @@ func (g *graph) entry() {
 			// A directive without a reason is malformed. It gets reported as such and must not suppress anything.
 			continue
 		}
-		if slices.Contains(strings.Split(dir.Arguments[0], ","), "U1000") {
+		// Match check names the same way lintcmd does for all other checks: case-insensitively and as globs.
+		if slices.ContainsFunc(strings.Split(dir.Arguments[0], ","), func(check string) bool {
+			m, _ := filepath.Match(strings.ToLower(check), "u1000")
+			return m
+		}) {
 			pos := g.fset.PositionFor(dir.Node.Pos(), false)
 			var key ignoredKey
 			switch dir.Command {
